@@ -306,6 +306,35 @@ func nestEdits(pi int, text []byte, pdf bool, skip func(int) bool, groupOf func(
 	return out
 }
 
+var reHex = regexp.MustCompile(`<[0-9A-Fa-f]+>`)
+
+// hexEdits: class 2 for the hex-string operands of CMap operators (codespacerange low/high, bfchar
+// src/dst, bfrange lo/hi/dst, cidrange lo/hi): they are numbers. Every operand -> zero of the same
+// width, all-F of the same width, FFFFFFFF, 7FFFFFFF, 80000000; two operands next to each other on
+// a line are also swapped (lo > hi).
+func hexEdits(pi int, text []byte, groupOf func(int) string) []edit {
+	var out []edit
+	ms := reHex.FindAllIndex(text, -1)
+	for k, m := range ms {
+		cur := string(text[m[0]+1 : m[1]-1])
+		n := len(cur)
+		tried := map[string]bool{strings.ToUpper(cur): true}
+		for _, v := range []string{strings.Repeat("0", n), strings.Repeat("F", n), "FFFFFFFF", "7FFFFFFF", "80000000"} {
+			if tried[v] {
+				continue
+			}
+			tried[v] = true
+			out = append(out, edit{part: pi, s: m[0] + 1, e: m[1] - 1, repl: []byte(v), class: "hex", val: v, group: groupOf(m[0])})
+		}
+		if k+1 < len(ms) && !bytes.ContainsAny(text[m[1]:ms[k+1][0]], "\n\r") {
+			nx := ms[k+1]
+			repl := append(append(append([]byte(nil), text[nx[0]:nx[1]]...), text[m[1]:nx[0]]...), text[m[0]:m[1]]...)
+			out = append(out, edit{part: pi, s: m[0], e: nx[1], repl: repl, class: "hex", val: "swap", group: groupOf(m[0])})
+		}
+	}
+	return out
+}
+
 // streamEdits: class 6 on a compressed byte range [s,e) of part pi.
 func streamEdits(pi, s, e int, text []byte, group string) []edit {
 	if e <= s {
